@@ -41,6 +41,7 @@ class WNode:
     children: List["WNode"] = field(default_factory=list)
     line: int = 0
     func: str = ""
+    modes: str = ""                       # keyword arguments of the write call other than the tag, when not the method's default
 
     def brief(self) -> str:
         if self.kind == "prim":
@@ -411,7 +412,8 @@ class WriterExtractor:
             if isinstance(val, ast.Name) and env.get(val.id, ("",))[0] == "grammar":
                 w[1].append(WNode("encaps", "octet_string", tag, children=env[val.id][1], line=c.lineno, func=fi.qualname))
             else:
-                w[1].append(WNode("prim", WRITE_KINDS[f.attr], tag, src, line=c.lineno, func=fi.qualname))
+                w[1].append(WNode("prim", WRITE_KINDS[f.attr], tag, src, line=c.lineno, func=fi.qualname,
+                                  modes=call_modes(self.m, f"{ASN1}.ASN1Writer", f.attr, c, ("tag", "value"), 1)))
             return None
         # nested grammar calls:  <obj>._pack_inner(writer, options) / <obj>.pack(writer, options) / self.get_value(options)
         wargs = [a for a in c.args if isinstance(a, ast.Name) and env.get(a.id, ("",))[0] == "writer"]
@@ -614,6 +616,7 @@ class RNode:
     line: int = 0
     func: str = ""
     appended_to: str = ""          # list local the value is appended to
+    modes: str = ""                # keyword arguments of the read call other than tag/header/hint, when not the method's default
 
     def brief(self) -> str:
         if self.kind == "prim":
@@ -847,6 +850,34 @@ def normalise_guards(body: List[ast.stmt]) -> List[ast.stmt]:
         ast.fix_missing_locations(new_if)
         return list(body[:i]) + pre + [new_if, body[-1]]
     return body
+
+
+def call_modes(model: Model, cls_q: str, meth: str, call: ast.Call, inert: Tuple[str, ...], npos_inert: int) -> str:
+    """the arguments of a reader/writer method call that select a mode of the method (anything but the value, the tag, the
+    header and the error hint), rendered as text; empty when each of them is the literal default of its parameter"""
+    mt = model.find_method(cls_q, meth)
+    out = []
+    defaults = {}
+    pos: List[str] = []
+    if mt is not None:
+        a = mt.node.args
+        pos = [p.arg for p in a.posonlyargs + a.args][1:]
+        dl = a.defaults
+        for p_, d in zip(pos[len(pos) - len(dl):] if dl else [], dl):
+            defaults[p_] = d
+        for p_, d in zip(a.kwonlyargs, a.kw_defaults):
+            if d is not None:
+                defaults[p_.arg] = d
+    pairs = [(pos[i] if i < len(pos) else f"#{i}", v) for i, v in enumerate(call.args) if i >= npos_inert]
+    pairs += [(k.arg or "**", k.value) for k in call.keywords]
+    for name, v in pairs:
+        if name in inert:
+            continue
+        d = defaults.get(name)
+        if d is not None and isinstance(d, ast.Constant) and isinstance(v, ast.Constant) and d.value == v.value and type(d.value) is type(v.value):
+            continue
+        out.append(f"{name}={norm(v)}")
+    return ", ".join(sorted(out))
 
 
 class ReaderExtractor:
@@ -1344,6 +1375,7 @@ class ReaderExtractor:
                 st["readers"][target] = node.children
             return node
         node = RNode("prim", READ_KINDS[meth], spec, var=target or "", conv=conv, line=call.lineno, func=fi.qualname, appended_to=appended_to)
+        node.modes = call_modes(self.m, f"{ASN1}.ASN1Reader", meth, call, ("tag", "header", "hint", "enum_type"), 0)
         if meth == "read_enumerated" and call.args:
             q = self.m.resolve_name(fi.module, norm(call.args[0]))
             node.enum_cls = q or norm(call.args[0])
